@@ -8,6 +8,8 @@ import (
 	disputekeeper "github.com/tellor-io/layer/x/dispute/keeper"
 	disputetypes "github.com/tellor-io/layer/x/dispute/types"
 
+	"cosmossdk.io/math"
+
 	sdk "github.com/cosmos/cosmos-sdk/types"
 	stakingtypes "github.com/cosmos/cosmos-sdk/x/staking/types"
 )
@@ -83,11 +85,9 @@ func (o *OracleC13) AfterBlock(c *Chain, b *BlockCtx) []*Violation {
 			}
 		case ev.Kind == "burn" && ev.From == disputeMod:
 			if ev.TxIdx >= 0 {
-				if txOut[ev.TxIdx] == nil {
-					txOut[ev.TxIdx] = new(big.Int)
-					txOutTo[ev.TxIdx] = map[string]*big.Int{}
-				}
-				txOut[ev.TxIdx].Add(txOut[ev.TxIdx], ev.Amount.BigInt())
+				// inside a transaction the dispute account only burns accumulated sub-unit dust: whole units out of one
+				// counter that collects the remainders of ALL disputes. They belong to no single dispute's ledger.
+				o.add("dust_units_burned", int(ev.Amount.Int64()))
 			} else {
 				beginOut.Add(beginOut, ev.Amount.BigInt())
 				beginBurn.Add(beginBurn, ev.Amount.BigInt())
@@ -311,6 +311,14 @@ func (o *OracleC13) AfterBlock(c *Chain, b *BlockCtx) []*Violation {
 		}
 	}
 
+	// ---- the dust counter holds sub-unit remainders only (10^-6 of a unit each): whole units are burned as they form
+	if dust, err := b.Ref.App.DisputeKeeper.Dust.Get(v.ctx); err == nil {
+		o.count("dust_counter_checks")
+		if dust.GTE(math.NewInt(1_000_000)) || dust.IsNegative() {
+			out = append(out, o.v(b.H, "dust", "dust-counter-holds-whole-units", "the dust counter holds %s millionths of a unit after block %d: whole units must have been burned when they formed", dust, b.H))
+		}
+	}
+
 	// ---- conservation: once everybody has claimed, in = out + dust
 	for _, id := range o.t.ids() {
 		d := o.t.cur[id]
@@ -350,9 +358,7 @@ func (o *OracleC13) AfterBlock(c *Chain, b *BlockCtx) []*Violation {
 		o.count("fully_settled_disputes")
 		o.t.refunded[fmt.Sprintf("settled|%d", id)] = true
 		nClaims := int64(len(o.paid[root]) + 4)
-		// sub-unit remainders of all disputes accumulate in one counter and are burned, a whole unit at a time, inside
-		// whichever claim transaction crosses the unit: up to two units per claim can belong to other disputes
-		if residual.Cmp(big.NewInt(-2*nClaims)) < 0 || residual.Cmp(big.NewInt(nClaims)) > 0 {
+		if residual.Sign() < 0 || residual.Cmp(big.NewInt(nClaims)) > 0 {
 			cls := "residual-after-all-claims"
 			if residual.Sign() < 0 {
 				cls = "paid-out-more-than-paid-in"
